@@ -31,6 +31,7 @@ RULE_TEXT = (
     "of the columns view / DESCRIBE == type-name oracle; C09.i side-table rows carry the object's own (catalog, schema, "
     "table); C09.j the (table, comment) pair is never stored on a module-level constant statement."
     " C09.k per-database views call no session-dependent function and filter catalog-wide sources by their own database; C09.e rejects the free text anywhere but in a single-quoted literal."
+    " C09.f2 a declared empty comment is recorded."
 )
 TRUSTED = ["CPython ast", "DuckDB: information_schema.tables lists temp tables as LOCAL TEMPORARY in catalog temp; LIKE wildcards _ and %",
            "internal object inventory is derived from fakesnow's own CREATE/ATTACH templates"]
